@@ -11,7 +11,8 @@ BUDGET = {'quick': 6000, 'thorough': 300000}
 RULE = (
     'Hypothesis draws (error model kind in {gauss,mult,cm,lognorm}, n_obs 1-12, model outputs, '
     'observations, sigma log-uniform in [1e-3,1e3] (outputs/observations positive for '
-    'mult/cm/lognorm), output-sensitivity matrix (n_obs x p), p 0-6, optional out-of-support '
+    'mult/cm/lognorm), output-sensitivity matrix (n_obs x p), p 0-6; 10% long vectors (150-2500 observations at a common '
+    'magnitude 1e-3..1e3, generated from a spec seed); optional out-of-support '
     'class (one scale <=0, or a non-positive output for lognorm), optional ReducedErrorModel with '
     'a fixed subset). Non-trivial: in support, n_obs>=2 with pairwise distinct outputs, every '
     'residual != 0 and no sigma == 1. Distinct = distinct (kind,n_obs,p,oos,fixed-subset) tuples.')
@@ -21,13 +22,30 @@ ASSUMPTIONS = [
     'derivative oracle: complex-step differentiation of the reference (exact to rounding)',
     'outputs of multiplicative / constant+multiplicative models are positive (negative total '
     'standard deviations are outside the documented model)']
-REQUIRED = ['kind:gauss', 'kind:mult', 'kind:cm', 'kind:lognorm', 'oos', 'reduced', 'p=0', 'n=1']
+REQUIRED = ['kind:gauss', 'kind:mult', 'kind:cm', 'kind:lognorm', 'oos', 'reduced', 'p=0', 'n=1', 'long']
 KINDS = ['gauss', 'mult', 'cm', 'lognorm']
+
+
+@st.composite
+def _long_spec(draw, kind):
+    """Long observation vectors (hundreds to thousands of points) at a common magnitude: sums of
+    logs are fine, products over the vector are not."""
+    n = draw(st.sampled_from([150, 400, 1000, 2500]))
+    mag = draw(st.sampled_from([1e-3, 1e-2, 1.0, 5.0, 100.0, 1000.0]))
+    npar = ref.EM_NPAR[kind]
+    seedv = draw(st.integers(0, 10 ** 6))
+    sig = draw(gen.vec(gen.logu(0.05, 2.0), npar))
+    if kind in ('gauss', 'cm'):
+        sig[0] = gen.r6(sig[0] * mag)
+    return dict(kind=kind, n=n, p=draw(st.integers(0, 2)), long=dict(mag=mag, seed=seedv), sig=sig,
+                ybar=None, y=None, S=None, oos=None, fixed=None, jq=0)
 
 
 @st.composite
 def _spec(draw):
     kind = draw(st.sampled_from(KINDS))
+    if gen.chance(draw, 0.1):
+        return draw(_long_spec(kind))
     n = draw(st.integers(1, 12))
     p = draw(st.integers(0, 6))
     npar = ref.EM_NPAR[kind]
@@ -66,6 +84,8 @@ def strategy(tier):
 
 def classify(spec):
     labs = ['kind:' + spec['kind']]
+    if spec.get('long'):
+        return labs + ['long']
     if spec['oos']:
         labs.append('oos')
     if spec['fixed'] is not None:
@@ -78,6 +98,8 @@ def classify(spec):
 
 
 def nontrivial(spec):
+    if spec.get('long'):
+        return True
     if spec['oos']:
         return False
     yb = spec['ybar']
@@ -89,11 +111,50 @@ def nontrivial(spec):
 
 
 def structure(spec):
+    if spec.get('long'):
+        return [spec['kind'], spec['n'], spec['p'], 'long', spec['long']['mag']]
     return [spec['kind'], spec['n'], spec['p'], spec['oos'], spec['fixed']]
+
+
+def check_long(case):
+    """Long vectors: total, pointwise sum and sensitivities against the vectorised reference."""
+    s = case.spec
+    kind, n, p = s['kind'], s['n'], s['p']
+    rng = np.random.RandomState(s['long']['seed'])          # deterministic function of the spec
+    mag = s['long']['mag']
+    ybar = mag * np.exp(rng.uniform(-0.5, 0.5, n))
+    y = ybar * np.exp(rng.uniform(-0.3, 0.3, n))
+    S = rng.uniform(-1, 1, (n, p))
+    sig = np.array(s['sig'], dtype=float)
+    em = ref.em_class(kind)()
+    want_pw = np.real(ref.em_pointwise_vec(kind, sig, ybar, y))
+    want = float(np.sum(want_pw))
+    with case.clause('long_value'):
+        got = em.compute_log_likelihood(sig.copy(), ybar.copy(), y.copy())
+        case.close(got, want, rtol=1e-9, what='log-likelihood of %d observations of magnitude %g' % (n, mag))
+    with case.clause('long_pointwise'):
+        pw = em.compute_pointwise_ll(sig.copy(), ybar.copy(), y.copy())
+        case.close(pw, want_pw, rtol=1e-9, what='pointwise values')
+        case.close(np.sum(pw), em.compute_log_likelihood(sig.copy(), ybar, y), rtol=1e-9,
+                   what='sum(pointwise) vs total')
+    with case.clause('long_sensitivities'):
+        sc, sens = em.compute_sensitivities(sig.copy(), ybar.copy(), S.copy(), y.copy())
+        case.close(sc, want, rtol=1e-9, what='score from compute_sensitivities')
+        dyb = np.imag(ref.em_pointwise_vec(kind, sig, ybar + 1e-30j, y)) / 1e-30      # separable terms
+        dsig = ref.cgrad(lambda z: np.sum(ref.em_pointwise_vec(kind, z, ybar, y)), sig)
+        want_s = np.concatenate([dyb @ S, dsig])
+        scale = np.concatenate([np.abs(dyb) @ np.abs(S), np.abs(dsig)])
+        err = np.abs(np.asarray(sens, dtype=float) - want_s)
+        tol = 1e-8 * np.maximum(1.0, scale)
+        if np.any(~(err <= tol)):
+            k = int(np.argmax(err / tol))
+            case.fail('mismatch', 'sensitivity[%d]: got %r expected %r' % (k, sens[k], want_s[k]))
 
 
 def check(case):
     s = case.spec
+    if s.get('long'):
+        return check_long(case)
     kind = s['kind']
     ybar = np.array(s['ybar'], dtype=float)
     y = np.array(s['y'], dtype=float)
